@@ -4,12 +4,12 @@ import glob, json, os, shutil, sys
 SRC = sys.argv[1] if len(sys.argv) > 1 else "/tmp/wtout2"
 DST = os.path.join(os.path.dirname(os.path.dirname(os.path.abspath(__file__))), "benign")
 n = 0
-for vf in sorted(glob.glob(os.path.join(SRC, "R_*", "r*.verify.json")) + glob.glob(os.path.join(SRC, "RB_*", "r*.verify.json")) + glob.glob(os.path.join(SRC, "RC_*", "r*.verify.json"))):
+for vf in sorted(glob.glob(os.path.join(SRC, "R_*", "r*.verify.json")) + glob.glob(os.path.join(SRC, "RB_*", "r*.verify.json")) + glob.glob(os.path.join(SRC, "RC_*", "r*.verify.json")) + glob.glob(os.path.join(SRC, "RD_*", "r*.verify.json"))):
     v = json.load(open(vf))
     if not v.get("confirmed"):
         print("skip", vf); continue
     base = vf[:-len(".verify.json")]
-    area = os.path.basename(os.path.dirname(vf)).replace("RB_", "s-").replace("RC_", "m-").replace("R_", "")
+    area = os.path.basename(os.path.dirname(vf)).replace("RB_", "s-").replace("RC_", "m-").replace("RD_", "a-").replace("R_", "")
     d = os.path.join(DST, "%s-%s" % (area, os.path.basename(base)))
     os.makedirs(d, exist_ok=True)
     shutil.copy(base + ".diff", os.path.join(d, "patch.diff"))
